@@ -619,6 +619,10 @@ def run(rep: Report, repo: Repo, tier: str) -> None:
     # ---- R14: hand-written subclasses of the generated recognizers leave the error plumbing alone
     with rep.isolated():
         rule_recognizer_subclasses(rep, repo, "C06-R14")
+    # ---- R15: "never ... a view of the file in which source characters were skipped": the lexer reads the file itself
+    from . import misc_rules as _mr
+    with rep.isolated():
+        _mr.rule_decode(rep, repo, "C06-R15")
 
 
 ERROR_PLUMBING = {"notifyErrorListeners", "getNumberOfSyntaxErrors", "getErrorListenerDispatch", "addErrorListener",
